@@ -599,7 +599,10 @@ class SequenceEncoder(AbstractItemEncoder):
                     else:
                         chunk = encodeFun(component, asn1Spec, **options)
 
-                        if wrapType.isSameTypeWith(component):
+                        # only a ready-made ANY blob goes in as is; a typed
+                        # value is wrapped even if its own tag coincides
+                        if (component.typeId == wrapType.typeId and
+                                wrapType.isSameTypeWith(component)):
                             substrate += chunk
 
                         else:
@@ -684,8 +687,9 @@ class SequenceOfEncoder(AbstractItemEncoder):
         for idx, component in enumerate(value):
             chunk = encodeFun(component, asn1Spec, **options)
 
-            if (wrapType is not None and
-                    not wrapType.isSameTypeWith(component)):
+            if (wrapType is not None and not (
+                    getattr(component, 'typeId', None) == wrapType.typeId and
+                    wrapType.isSameTypeWith(component))):
                 # wrap encoded value with wrapper container (e.g. ANY)
                 chunk = encodeFun(chunk, wrapType, **options)
 
